@@ -154,6 +154,13 @@ func TestVerifC05(t *testing.T) {
 			"over HTTP the client's Close may wait for the DELETE exchange (bounded by 5 s)", "server-side Connection of HTTP/SSE transports is not wrapped (created inside the handler)"},
 	}
 	vh.Run(t, cfg, func(c *vh.Case) {
+		if c.Index%50 == 7 {
+			// a real child process behind CommandTransport (no virtual time), see c05cmd_test.go
+			spec := genC05Cmd(c.R)
+			c.SetSpec(spec)
+			runC05Cmd(c, spec)
+			return
+		}
 		spec := genC05(c.R, c.Index)
 		c.SetSpec(spec)
 		if c.Bubble("", func() { runC05(c, spec) }) {
